@@ -90,6 +90,50 @@ def gen_metrics():
         _has(r"\*w0\s*\+=\s*w1;", cb),
     ]
     out += "Definition imbalance_shape : list bool := [%s]%%list.\n" % "; ".join("true" if b else "false" for b in shape)
+    out += _fingerprints(topo, sprs, cart, imb)
+    return out
+
+
+def _strip_comments(src):
+    src = re.sub(r"/\*.*?\*/", " ", src, flags=re.S)
+    return re.sub(r"//[^\n]*", " ", src)
+
+
+_FP_FUNCS = [
+    ("topology/mod.rs", "edge_cut"), ("topology/mod.rs", "lambda_cut"),
+    ("topology/sprs.rs", "edge_cut"), ("topology/sprs.rs", "lambda_cut"),
+    ("cartesian/mod.rs", "position_of"), ("cartesian/mod.rs", "index_of"), ("cartesian/mod.rs", "next"),
+    ("imbalance.rs", "compute_parts_load"), ("imbalance.rs", "imbalance"),
+    ("imbalance.rs", "imbalance_target"), ("imbalance.rs", "max_imbalance"),
+]
+
+
+def _fingerprint(body):
+    """Structure of a function body: [if, else, match, return, for, while|loop, method calls, `;`, container
+    mentions, unsafe, macro calls].  A second code path (a branch, an early return, another container, another
+    fold/reduce) changes it; reformatting, comments and renamed variables do not."""
+    b = _strip_comments(body)
+    cnt = lambda pat: len(re.findall(pat, b))
+    return [
+        cnt(r"\bif\b"), cnt(r"\belse\b"), cnt(r"\bmatch\b"), cnt(r"\breturn\b"), cnt(r"\bfor\b"),
+        cnt(r"\b(?:while|loop)\b"), cnt(r"\.\s*[a-z_][a-z0-9_]*\s*(?:::\s*<[^;{}()]*>)?\s*\("), cnt(r";"),
+        cnt(r"\b(?:HashMap|HashSet|BTreeMap|BTreeSet|VecDeque|Vec|vec)\b"), cnt(r"\bunsafe\b"),
+        cnt(r"\b[a-z_][a-z0-9_]*!"),
+    ]
+
+
+def _fingerprints(topo, sprs, cart, imb):
+    srcs = {"topology/mod.rs": topo, "topology/sprs.rs": sprs, "cartesian/mod.rs": cart, "imbalance.rs": imb}
+    rows, names = [], []
+    for f, fn in _FP_FUNCS:
+        body = fn_body(srcs[f], fn)
+        if body is None:
+            raise Fail("fn %s not found in src/%s" % (fn, f))
+        rows.append("[%s]" % "; ".join(str(x) for x in _fingerprint(body)))
+        names.append("%s::%s" % (f, fn))
+    out = "(* structure fingerprints [if; else; match; return; for; while|loop; method calls; semicolons;\n"
+    out += "   containers; unsafe; macros] of, in order: %s *)\n" % ", ".join(names)
+    out += "Definition source_fingerprints : list (list nat) := [\n  %s]%%list.\n" % ";\n  ".join(rows)
     return out
 
 
@@ -112,6 +156,10 @@ PROP = dict(
          "{1023..1026, 2047..2050, 4095..4100, 5000, random 1500..5200}, partitions that cut edges at and around rows 1022..1025, "
          "2047..2049, 4095, 4096 (alternating, single cut at a boundary, boundary rows only, blocks of 512/1000/1024/1025, random "
          "windows around the boundaries); "
+         "MANY-PARTS load cases (about a third of the large slots): num_parts in {1024,1025,1500,2048,3000,4097}, len 2..4 x num_parts, "
+         "partitions given as a formula p[i] = (c + a*(i/b)) mod k (round-robin, strides sharing a factor with k so that parts stay empty, "
+         "block-wise) or as random runs over a pool of 60 part ids, i64 and integer-valued f64 weights, pools of 1,2,3,8 threads; large "
+         "graphs / grids also get one part per vertex, round-robin over 65/129/1025/2048 parts and block-wise many-part partitions; "
          "number of parts in every stream: 60% 1..6, 30% largest id in {7,8,15,16,31,32,33,63,64,65,127,128,129,255,256}, 10% random "
          "7..300 (many empty parts); with many parts the extreme ids k-1, 0, k-2 are forced onto consecutive vertices (they meet "
          "on paths, rings, lattices) or only the top ids are used; one part per vertex on paths/rings with n in {8,9,16,17,32..34,"
@@ -124,7 +172,8 @@ PROP = dict(
                  7: "adjacency list with unsorted/duplicate rows (generic trait only)",
                  8: "unsorted rows via CsMatView::new_unchecked (outside the sparse-matrix contract): specialisation still equals the definition",
                  9: "unsorted rows via CsMatView::new_unchecked (outside the sparse-matrix contract): specialisation differs from the definition, as the model predicts",
-                 10: "large sparse matrix (1023..5200 vertices)", 11: "large Grid (1023..5000 cells)"},
+                 10: "large sparse matrix (1023..5200 vertices)", 11: "large Grid (1023..5000 cells)",
+                 12: "loads/imbalance with 1024..4097 parts"},
     trusted_base=[
         "axioms: none (every theorem of Properties/C16.v is closed under the global context)",
         "modelled, not verified: i64 overflow of sums and of Grid index arithmetic (contract: no overflow); the f64 instantiations are run "
